@@ -464,6 +464,11 @@ func (r *Reader) seekIndexed(want record) (*tableIter, error) {
 			return nil, err
 		}
 
+		if rec.Offset >= idxIter.blockOff {
+			// An index is written after the blocks it
+			// describes; anything else could loop forever.
+			return nil, fmtError
+		}
 		tabIter, err := r.tabIterAt(rec.Offset, blockTypeAny)
 		if err != nil {
 			return nil, err
